@@ -50,7 +50,6 @@ type cmafIngester struct {
 	log            *slog.Logger
 	testNowMS      *int
 	dur            *int
-	nrSegsToSend   *int // calculate from dur and segDur
 	streamsURLs    bool
 	useChunked     bool
 	cfg            *ResponseConfig
@@ -182,10 +181,6 @@ func (cm *cmafIngesterMgr) NewCmafIngester(req CmafIngesterSetup) (nr uint64, er
 		nextSegTrigger: make(chan struct{}),
 		done:           make(chan struct{}),
 	}
-	if c.dur != nil {
-		// Round up so that the segments sent cover the full duration
-		c.nrSegsToSend = m.Ptr((*c.dur*1000 + asset.SegmentDurMS - 1) / asset.SegmentDurMS)
-	}
 	cm.ingesters[nr] = &c
 
 	return nr, nil
@@ -310,8 +305,13 @@ func (c *cmafIngester) start(ctx context.Context) {
 	nextSegNr := lastNr + 1 + c.cfg.getStartNr()
 	lastSegNrToSend := -1
 
-	if c.nrSegsToSend != nil {
-		lastSegNrToSend = nextSegNr + *c.nrSegsToSend - 1
+	if c.dur != nil {
+		// The last segment to send is the one in which the duration ends. Segment durations may vary.
+		endTime := findSegStartTime(c.asset, c.cfg, nextSegNr, refRep) + *c.dur*refRep.MediaTimescale
+		lastSegNrToSend = nextSegNr
+		for findSegStartTime(c.asset, c.cfg, lastSegNrToSend+1, refRep) < endTime {
+			lastSegNrToSend++
+		}
 	}
 	if lastSegNrToSend > 0 {
 		c.log.Debug("First and last segment number to send", "first", nextSegNr, "last", lastSegNrToSend)
